@@ -139,6 +139,19 @@ def special_families():
                 evs += [E(1, "OHe"), E(2, "OHe")]
                 jobs.append(("model:multiproc-task-types", system, evs))
                 jobs.append(("breakdown:multiproc-%dlooms" % nl, system, evs))
+        # task types whose label hashes to a boundary of the gid arithmetic (emuhist.BOUNDARY_LABELS)
+        system = {"threads": [{"tid": 101, "pid": 1001, "app": 1, "loom": 1, "rank": -1}],
+                  "cpus": [{"loom": 1, "idx": 0, "phy": 10, "virt": False}, {"loom": 1, "idx": -1, "phy": -1, "virt": True}],
+                  "marks": [], "models": ["O", mc]}
+        nb = len(emuhist.BOUNDARY_LABELS)
+        evs = [E(1, "OHx", [0, 101, 7])]
+        for k in range(nb):
+            evs += [E(1, Y, [k + 1, 900 + k], True), E(1, Tc, [k + 1, k + 1])]
+        for k in range(nb):
+            evs += [ex(1, k + 1), end(1, k + 1)]
+        evs += [E(1, "OHe")]
+        jobs.append(("model:boundary-task-type-labels", system, evs))
+        jobs.append(("breakdown:boundary-task-type-labels", system, evs))
     return jobs
 
 
